@@ -4,6 +4,8 @@
 package eng
 
 import (
+	"bytes"
+	"os/exec"
 	"crypto/sha256"
 	"encoding/hex"
 	"encoding/json"
@@ -350,10 +352,39 @@ func (c *Ctx) report(sub string, f *Fail, args any, again func() *Fail) {
 		}
 	}
 	c.mu.Unlock()
+	raw, _ := json.Marshal(args)
 	// confirm determinism 5x
 	for r := 0; r < 5; r++ {
 		g := again()
 		if g == nil || g.Key != f.Key {
+			// The case does not fail again inside this process. That is what a failure looks like that depends on state
+			// the library keeps between calls (a pool, a lazily built table, a cache): re-executing cannot go back to the
+			// state before the first execution. Such a case must fail identically every time it is run from a fresh
+			// process; anything else is nondeterminism of the harness and is an internal error, never an alarm.
+			if ff := FreshConfirm(c.ID, sub, raw, 5); ff != nil {
+				ff.Detail = "reproduces in 5 of 5 fresh processes, not when re-executed inside the exploring process (state kept between calls). " + ff.Detail
+				f = ff
+				if nc := sub + "|" + f.Key; nc != class {
+					// the fresh process names a different failure (for example the state change itself rather than
+					// its consequence): account for that class instead
+					class = nc
+					c.mu.Lock()
+					n := c.classes[class]
+					c.classes[class] = n + 1
+					known := false
+					for i := range c.known {
+						if c.known[i].re.MatchString(class) {
+							c.knownHits[i]++
+							known = true
+						}
+					}
+					c.mu.Unlock()
+					if n > 0 || known {
+						return
+					}
+				}
+				break
+			}
 			fmt.Fprintf(os.Stderr, "INTERNAL: non-reproducing failure %s (%s)\n", class, f.Detail)
 			c.mu.Lock()
 			c.notes = append(c.notes, "internal: non-reproducing failure "+class)
@@ -362,7 +393,6 @@ func (c *Ctx) report(sub string, f *Fail, args any, again func() *Fail) {
 			return
 		}
 	}
-	raw, _ := json.Marshal(args)
 	rep := map[string]any{"property": c.ID, "sub": sub, "key": f.Key, "detail": f.Detail, "args": json.RawMessage(raw)}
 	b, _ := json.MarshalIndent(rep, "", " ")
 	sum := sha256.Sum256(append([]byte(class), raw...))
@@ -384,6 +414,70 @@ func trunc(s string, n int) string {
 		return s[:n] + "..."
 	}
 	return s
+}
+
+// FreshRun executes the registered replayer sub on args in a fresh process (this binary, "replay" mode, GOGC=off so
+// that no collection empties a sync.Pool at an arbitrary moment) and returns its failure, or nil if the case passes.
+// ok is false when the child could not be run or did not answer.
+func FreshRun(id, sub string, raw []byte) (f *Fail, ok bool) {
+	root := os.Getenv("VERIF_ROOT")
+	if root == "" {
+		root = "/verif"
+	}
+	dir := filepath.Join(root, "build", "tmp")
+	os.MkdirAll(dir, 0o755)
+	tf, err := os.CreateTemp(dir, "fresh-*.json")
+	if err != nil {
+		return nil, false
+	}
+	defer os.Remove(tf.Name())
+	b, _ := json.Marshal(map[string]any{"property": id, "sub": sub, "key": "", "args": json.RawMessage(raw)})
+	tf.Write(b)
+	tf.Close()
+	cmd := exec.Command(os.Args[0], "replay", tf.Name())
+	cmd.Env = append(os.Environ(), "VERIF_REPLAY_JSON=1", "GOGC=off")
+	out, _ := cmd.Output()
+	i := bytes.LastIndex(out, []byte("REPLAY-RESULT "))
+	if i < 0 {
+		return nil, false
+	}
+	var res struct {
+		Fail   bool   `json:"fail"`
+		Key    string `json:"key"`
+		Detail string `json:"detail"`
+	}
+	line := out[i+len("REPLAY-RESULT "):]
+	if j := bytes.IndexByte(line, '\n'); j >= 0 {
+		line = line[:j]
+	}
+	if json.Unmarshal(line, &res) != nil {
+		return nil, false
+	}
+	if !res.Fail {
+		return nil, true
+	}
+	return &Fail{Key: res.Key, Detail: res.Detail}, true
+}
+
+// FreshConfirm runs the case n times, each in a fresh process; it returns the failure if all n runs fail with the same
+// key, else nil.
+func FreshConfirm(id, sub string, raw []byte, n int) *Fail {
+	if Replayer(sub) == nil {
+		return nil
+	}
+	var first *Fail
+	for r := 0; r < n; r++ {
+		f, ok := FreshRun(id, sub, raw)
+		if !ok || f == nil {
+			return nil
+		}
+		if first == nil {
+			first = f
+		} else if f.Key != first.Key {
+			return nil
+		}
+	}
+	return first
 }
 
 // Abort ends the check with an internal error (exit 3): wrong oracle, not an alarm.
@@ -472,11 +566,11 @@ func (c *Ctx) Finish() int {
 	}
 	fmt.Printf("property=%s tier=%s evaluations=%d distinct=%d nontrivial=%d states=%d transitions=%d violations=%d exhaustive=%v wall=%.1fs\n",
 		c.ID, c.Tier, c.evals.Load(), d, nt, states, trans, len(c.viols), !c.nonExh, wall)
-	if c.classes["__internal__"] > 0 {
-		return 3
-	}
 	if len(c.viols) > 0 {
 		return 1
+	}
+	if c.classes["__internal__"] > 0 {
+		return 3
 	}
 	return 0
 }
